@@ -44,6 +44,8 @@ pub fn enum_dec(ctx: &Ctx, ev: &mut Ev, sp: &DecSpace, mut f: impl FnMut(&DecCas
         let ml = if enc == UTF_16LE || enc == UTF_16BE { sp.maxlen + sp.utf16_extra } else { sp.maxlen };
         let mut tails = strings_over(&alpha, ml);
         if enc == ISO_2022_JP && sp.token_streams.0 > 0 { let toks = iso2022jp_tokens(); let idx: Vec<usize> = (0..toks.len()).collect(); for seq in strings_over(&idx, sp.token_streams.0) { if seq.len() < 2 { continue; } let mut v = vec![]; for t in seq { v.extend_from_slice(toks[t]); } if v.len() <= 9 { tails.push(v); } } }
+        if enc == UTF_8 && sp.token_streams.0 > 0 { let toks = utf8_tokens(); let idx: Vec<usize> = (0..toks.len()).collect(); for seq in strings_over(&idx, sp.token_streams.0.min(3)) { if seq.len() < 2 { continue; } let mut v = vec![]; for t in seq { v.extend_from_slice(toks[t]); } if v.len() <= 10 { tails.push(v); } } }
+        if (enc == UTF_16LE || enc == UTF_16BE) && sp.token_streams.0 > 0 { for seq in strings_over(&UTF16_UNITS, sp.token_streams.0.min(3).max(3)) { if seq.len() < 3 { continue; } for odd in [false, true] { let mut v = vec![]; for u in seq.iter() { if enc == UTF_16LE { v.push(*u as u8); v.push((*u >> 8) as u8); } else { v.push((*u >> 8) as u8); v.push(*u as u8); } } if odd { v.push(0xD8); } tails.push(v); } } }
         if enc == GB18030 && sp.token_streams.1 > 0 { let toks = gb18030_tokens(); let idx: Vec<usize> = (0..toks.len()).collect(); for seq in strings_over(&idx, sp.token_streams.1) { if seq.len() < 2 { continue; } let mut v = vec![]; for t in seq { v.extend_from_slice(toks[t]); } if v.len() <= 9 { tails.push(v); } } }
         for prefix in (if sp.prefixes.is_empty() { &no_prefix } else { &sp.prefixes }).iter() {
             for tail in tails.iter() {
